@@ -566,6 +566,9 @@ func c13MapOrder(c *Ctx, E *effects.Analysis, S map[*ssa.Function]bool) {
 						if p2, isPhi := e.(*ssa.Phi); isPhi && phiOfConstsOrSelf(p2, ph, l) {
 							continue
 						}
+						if lazyFreshMap(e, ph) {
+							continue
+						}
 						bad = "variable " + ph.Comment + " receives a value computed from the iteration (" + stripIDs(e.Name()) + "): its final value depends on map order"
 					}
 				}
@@ -630,6 +633,9 @@ func phiOfConstsOrSelf(p, outer *ssa.Phi, l *model.AnyLoop) bool {
 			default:
 				// loop-invariant values (defined outside the loop) are fine
 				if in, isIn := e.(ssa.Instruction); isIn && l.Blocks[in.Block()] {
+					if outer != nil && lazyFreshMap(e, outer) {
+						continue
+					}
 					return false
 				}
 			}
@@ -675,4 +681,35 @@ func c13Nondeterminism(c *Ctx, S map[*ssa.Function]bool) {
 		}
 	}
 	R.OK("C13.R5", "calls", fmt.Sprintf("%d call sites on sanitising paths inspected", nCalls), "", "none resolves into time, math/rand, os, sync, unsafe, reflect, runtime")
+}
+
+// lazyFreshMap: e is a map made inside the loop on a path where the loop-carried variable ph is known to be nil
+// (`if m == nil { m = make(…) }`): it is made at most once, whichever iteration comes first, and starts empty — which
+// iteration made it cannot be told from its contents.
+func lazyFreshMap(e ssa.Value, ph *ssa.Phi) bool {
+	mk, ok := e.(*ssa.MakeMap)
+	if !ok {
+		return false
+	}
+	b := mk.Block()
+	for d := b.Idom(); d != nil; d = d.Idom() {
+		iff, ok := d.Instrs[len(d.Instrs)-1].(*ssa.If)
+		if !ok || len(d.Succs) != 2 || d.Succs[0] == d.Succs[1] {
+			continue
+		}
+		bo, ok := iff.Cond.(*ssa.BinOp)
+		if !ok || bo.X != ssa.Value(ph) || !model.IsNil(bo.Y) {
+			continue
+		}
+		k := 0
+		if bo.Op == token.NEQ {
+			k = 1
+		} else if bo.Op != token.EQL {
+			continue
+		}
+		if s := d.Succs[k]; (s == b || s.Dominates(b)) && len(s.Preds) == 1 {
+			return true
+		}
+	}
+	return false
 }
